@@ -115,9 +115,9 @@ def check(sid, tier="quick", props=None):
         rm(sname)
 
 
-def do_import(pid, name):
+def do_import(pid, name, prefix="seed"):
     """copy /tmp/seed-<pid>-out into /verif/seeded/<pid>-<name>, recording where the demo files live in the tree"""
-    src, wt = "/tmp/seed-%s-out" % pid, "/tmp/seed-%s" % pid
+    src, wt = "/tmp/%s-%s-out" % (prefix, pid), "/tmp/%s-%s" % (prefix, pid)
     dst = os.path.join(SEEDED, "%s-%s" % (pid, name))
     os.makedirs(dst, exist_ok=True)
     meta = json.load(open(os.path.join(src, "meta.json")))
@@ -139,8 +139,11 @@ def do_import(pid, name):
 
 if __name__ == "__main__":
     a = sys.argv[1:]
-    if a[0] == "import":
-        do_import(a[1], a[2])
+    if a[0] in ("import", "import2"):
+        do_import(a[1], a[2], "seed" if a[0] == "import" else "seed2")
+        if a[0] == "import2":
+            subprocess.run(["git", "-C", "/repo", "worktree", "remove", "--force", "/tmp/seed2-%s" % a[1]])
+            shutil.rmtree("/tmp/seed2-%s-out" % a[1], ignore_errors=True)
         sys.exit(0)
     tier = a[a.index("--tier") + 1] if "--tier" in a else "quick"
     props = a[a.index("--props") + 1].split(",") if "--props" in a else None
@@ -148,6 +151,16 @@ if __name__ == "__main__":
         print(json.dumps(verify(a[1]), indent=1))
     elif a[0] == "check":
         check(a[1], tier, props)
+    elif a[0] == "pending":
+        try:
+            done = json.load(open(os.path.join(SEEDED, "RESULTS.json")))
+        except Exception:
+            done = {}
+        for sid in sorted(os.listdir(SEEDED)):
+            if os.path.exists(os.path.join(SEEDED, sid, "patch.diff")) and not any(v["seeded"] == sid for v in done.values()):
+                v = verify(sid)
+                print("VERIFY", sid, {k: x for k, x in v.items() if "tail" not in k}, flush=True)
+                check(sid, tier, props)
     elif a[0] == "all":
         for sid in sorted(os.listdir(SEEDED)):
             if os.path.exists(os.path.join(SEEDED, sid, "patch.diff")):
